@@ -289,17 +289,24 @@ fn minimise(scn: Scenario, sig: &str, vals: Vec<u32>, vals2: Vec<u32>, entity_se
     if !fails(&cur, &cur2, es) {
         return (cur, cur2, es);
     }
-    let mut budget = 2000i32;
+    let mut budget = 30_000i32;
     if es != 0 && fails(&cur, &cur2, 0) {
         es = 0;
     }
-    // the schedule first (fewer faults), then the program
-    if !cur2.is_empty() {
-        let c1 = cur.clone();
-        shrink(&mut cur2, &mut budget, &|v2: &[u32]| fails(&c1, v2, es));
+    // the schedule first (fewer faults), then the program; repeat until nothing shrinks any more
+    loop {
+        let before = (cur.len(), cur2.len(), cur.iter().map(|v| *v as u64).sum::<u64>() + cur2.iter().map(|v| *v as u64).sum::<u64>());
+        if !cur2.is_empty() {
+            let c1 = cur.clone();
+            shrink(&mut cur2, &mut budget, &|v2: &[u32]| fails(&c1, v2, es));
+        }
+        let c2 = cur2.clone();
+        shrink(&mut cur, &mut budget, &|v: &[u32]| fails(v, &c2, es));
+        let after = (cur.len(), cur2.len(), cur.iter().map(|v| *v as u64).sum::<u64>() + cur2.iter().map(|v| *v as u64).sum::<u64>());
+        if after == before || budget <= 0 {
+            break;
+        }
     }
-    let c2 = cur2.clone();
-    shrink(&mut cur, &mut budget, &|v: &[u32]| fails(v, &c2, es));
     (cur, cur2, es)
 }
 
